@@ -275,6 +275,39 @@ def triples(ctx):
         yield (s, a, s2, origin)
 
 
+def environment_level(ctx):
+    """the reward and the flag an ENVIRONMENT hands out for a step are its components evaluated on (state before, action, state after) AS VALUES:
+    the step is made through the copying functional interface, the two states are rebuilt from scratch from their content, and the components are
+    asked again -- a step whose two states share objects (a door opened 'in both') pays the wrong reward"""
+    from vt import access
+    from vt.suites import C03
+    r = ctx.rng
+    for k in range(150 if ctx.tier == 'quick' else 1500):
+        cs = C03.door_on_the_way(r) if r.random() < 0.5 else C03.one_exit(tsuite.interactive_world(r), r)
+        label, env, desc = C03.interactive_env(gen.shape_of(cs[0]), r)
+        s = wire.mkstate(cs)
+        for _t in range(r.randint(1, 4)):
+            a = r.choice([6, 6, 0, 0, 7, r.randrange(8)])
+            before = wire.cstate(s)
+            try:
+                env.set_seed(r.randrange(1 << 30))
+                s2, rwd, done = env.functional_step(s, impl.ACTS[a])
+                after = wire.cstate(s2)
+                exp_r = access.reward_function(env)(wire.mkstate(before), impl.ACTS[a], wire.mkstate(after))
+                exp_d = access.termination_function(env)(wire.mkstate(before), impl.ACTS[a], wire.mkstate(after))
+            except access.AccessError:
+                return
+            except Exception:  # noqa: BLE001  (raising steps are C01's business)
+                break
+            ctx.case(('env-level', before, a), after != before, None)
+            ctx.count('environment-level step', impl.ACTS[a].name)
+            if rwd != exp_r or bool(done) != bool(exp_d):
+                ctx.violation(f'functional_step returned (reward {rwd!r}, done {done!r}); the components on the state before, {impl.ACTS[a].name} and the state after give ({exp_r!r}, {exp_d!r})',
+                              {'state': gen.show_state(before), 'action': impl.ACTS[a].name, 'next_state': gen.show_state(after), 'wire_state': before})
+                return
+            s = s2
+
+
 def run(ctx):
     r = ctx.rng
     ctx.rule = ('(s, a, s\') triples: s\' from real dynamics (60%), arbitrary same-shape states (20%), single-feature perturbations (20%); '
@@ -372,6 +405,7 @@ def run(ctx):
             c = dict(case)
             c.update({'impl': got, 'model': m})
             ctx.disagreement('termination: implementation and model differ', c)
+    environment_level(ctx)
 
 
 if __name__ == '__main__':
